@@ -126,6 +126,9 @@ func (fs *FileStorage) GetMessages(offset uint64) ([]storage.Message, error) {
 		}
 
 		row = scanner.Bytes()
+		// every line is decoded into a fresh message: a field missing from a line must not be inherited from
+		// the line read before it
+		data = storage.Message{}
 		if err = json.Unmarshal(row, &data); err != nil {
 			return nil, fmt.Errorf("failed to unmarshal a message %s: %w", string(row), err)
 		}
